@@ -165,6 +165,14 @@ CHECKS = {
         "List/dict cells: every leaf in order and no other alphanumeric content (exactly ', '.join for flat string lists); the UID cell format is not checked.",
         "DESIGN.md section 4 C19",
     ),
+    "C16": (
+        "enumerated and Hypothesis-sampled pumping families + structural repetition + soup; CPU time of an isolated, killable worker against a 2 s threshold",
+        "prefix + unit^n + suffix for every atom of the patterns' vocabulary (alone and followed by a space; pairs of atoms sampled) at 25 anchor "
+        "contexts and 7 suffixes, k-fold repetition of Twp/Rges / sections / lots / aliquots, and soup, all <= 300 characters, are parsed in a "
+        "separate worker process whose CPU seconds are compared with 2.0 s (100x the ordinary cost).",
+        "CPU time decides; a wall-clock timeout without CPU use is inconclusive. After three slow texts a shard stops measuring (the violation is established).",
+        "DESIGN.md section 4 C16",
+    ),
 }
 
 NOT_BUILT = {}
